@@ -252,6 +252,10 @@ mutant("c20_lookup_first_listing", "C20", "directory lookups served from a listi
         for f in self._listing:
             name, _ = splitext(f.name)
             if name == item:''')])
+mutant("c20_builder_keeps_suffix", "C20", "the YTK archive builder stores members under their file name (with .gb)", [
+    ("moclo-ytk/setup.py", "                arcname, _ = os.path.splitext(os.path.basename(gb_file))", "                arcname = os.path.basename(gb_file)")])
+mutant("c20_builder_dedup_by_prefix", "C20", "the CIDAR archive builder skips sources whose name contains a parenthesis (\"duplicates\")", [
+    ("moclo-cidar/setup.py", "            for gb_file in sorted(ext.sources):", "            for gb_file in sorted(s for s in ext.sources if \"(\" not in s):")])
 
 
 def main(argv):
